@@ -11,6 +11,54 @@ import (
 	"unicode/utf8"
 )
 
+// renderBytes models the rendering of a float with a fixed-precision verb as d symbolic
+// bytes (d forked over 4..RenderMax) that are a function of the value: byte_i = f2b_<verb>_<d>_<i>(v).
+// Assumed library facts: the bytes are digits, '.', '-' only and strconv.ParseFloat accepts
+// them; rendering ParseFloat(render(v)) gives render(v) again (recognised syntactically).
+func (in *Interp) renderBytes(verb string, t *Term) []Atom {
+	if in.path.rendered == nil {
+		in.path.rendered = map[string][]Atom{}
+	}
+	key := fmt.Sprintf("%s\x00%d", verb, t.id)
+	if a, ok := in.path.rendered[key]; ok {
+		return a
+	}
+	// render(parse(render(v))) = render(v)
+	if t.op == OpUF && strings.HasPrefix(t.name, "pf") {
+		for k, atoms := range in.path.rendered {
+			if !strings.HasPrefix(k, verb+"\x00") || len(atoms) != len(t.args) {
+				continue
+			}
+			same := true
+			for i := range atoms {
+				if atoms[i].t != t.args[i] {
+					same = false
+					break
+				}
+			}
+			if same {
+				in.path.rendered[key] = atoms
+				return atoms
+			}
+		}
+	}
+	d := 4 + in.choose(in.cfg.RenderMax-3, "render-len")
+	atoms := make([]Atom, d)
+	bs := make([]*Term, d)
+	vname := tagRe.ReplaceAllString(verb, "_")
+	for i := 0; i < d; i++ {
+		b := in.tb.UF(fmt.Sprintf("f2b_%s_%d_%d", vname, d, i), SBV8, t)
+		atoms[i].t = b
+		bs[i] = b
+	}
+	// shape [-]digits.digits
+	simple := in.simpleDecimal(bs)
+	in.assume(simple)
+	in.assume(in.pfOK(bs))
+	in.path.rendered[key] = atoms
+	return atoms
+}
+
 func (in *Interp) newOpaque(verb string, arg value) Atom {
 	// hash-cons on (verb, term) so equal renderings are the same piece
 	key := verb + "\x00"
@@ -248,6 +296,10 @@ func (in *Interp) format(fr *frame, f string, args []value) value {
 		default:
 			if s, ok := in.renderScalar(verb, t, v); ok {
 				out = append(out, in.litAtoms(s)...)
+				continue
+			}
+			if ft, ok := v.(*Term); ok && ft.sort == SFloat && in.cfg.RenderMax > 0 && vc == 'f' && width < 0 {
+				out = append(out, in.renderBytes(verb, ft)...)
 				continue
 			}
 			out = append(out, in.newOpaque(verb, v))
